@@ -318,6 +318,8 @@ type cliCase struct {
 	Stdin string   `json:"stdin"`
 	Hex   bool     `json:"hex,omitempty"`
 	Files []string `json:"files,omitempty"` // contents of f0, f1, ... in the working directory
+	// Modules: file name -> content, written into the working directory (used with -L .)
+	Modules map[string]string `json:"modules,omitempty"`
 }
 
 var cliFlags = []string{"-r", "--raw-output", "--raw-output0", "-j", "--join-output", "-c", "--compact-output", "--indent", "--indent=3", "--indent=-1", "--indent=8", "--indent=x", "--tab", "--yaml-output", "-C", "-M", "-n", "--null-input",
@@ -335,6 +337,12 @@ func checkCLI(c cliCase) outcome {
 	defer os.RemoveAll(dir)
 	for i, f := range c.Files {
 		os.WriteFile(filepath.Join(dir, fmt.Sprintf("f%d", i)), []byte(f), 0o644)
+	}
+	for name, content := range c.Modules {
+		if strings.ContainsAny(name, "/\\") || name == "" {
+			continue
+		}
+		os.WriteFile(filepath.Join(dir, name), []byte(content), 0o644)
 	}
 	stdin := []byte(c.Stdin)
 	if c.Hex {
@@ -519,6 +527,50 @@ func TestC08(t *testing.T) {
 		src, _ := sanitize(sb.String())
 		judge(t, "bytes", mkLib(src, values.Draw(t, "input"), nil))
 	})
+	// modules on disk: random import/include graphs, cycles and self-imports included
+	rec.Rapid(t, "cli-modules", rec.Scale(600, 20000), func(t *rapid.T) {
+		names := []string{"a", "b", "c", "d"}
+		c := cliCase{Modules: map[string]string{}}
+		for _, n := range names[:rapid.IntRange(1, 4).Draw(t, "nmods")] {
+			var sb strings.Builder
+			for i := 0; i < rapid.IntRange(0, 3).Draw(t, "ndirs"); i++ {
+				target := rapid.SampledFrom(names).Draw(t, "target")
+				switch rapid.IntRange(0, 3).Draw(t, "dir") {
+				case 0:
+					sb.WriteString("include \"" + target + "\";\n")
+				case 1:
+					sb.WriteString("import \"" + target + "\" as " + target + ";\n")
+				case 2:
+					sb.WriteString("import \"" + target + "\" as $" + target + ";\n")
+				default:
+					sb.WriteString("import \"" + target + "\" as x {search: \"./\"};\n")
+				}
+			}
+			sb.WriteString("def f_" + n + ": \"" + n + "\";\n")
+			if rapid.IntRange(0, 5).Draw(t, "garbage") == 0 {
+				sb.WriteString(rapid.SampledFrom(hostile).Draw(t, "hostile"))
+			}
+			c.Modules[n+".jq"] = sb.String()
+		}
+		c.Modules["d.json"] = rapid.SampledFrom([]string{"1 2 3", "{\"a\":1}", "[", "", "nul"}).Draw(t, "data")
+		main := rapid.SampledFrom(names).Draw(t, "main")
+		q := rapid.SampledFrom([]string{"import \"%s\" as m; m::f_%s", "include \"%s\"; f_%s", "import \"%s\" as m; 1", "\"%s\" | modulemeta", "import \"d\" as $d; $d, (\"%s%s\" | length)"}).Draw(t, "query")
+		q = strings.ReplaceAll(q, "%s", main)
+		c.Args = []string{"-n", "-c", "-L", ".", q}
+		rec.Eval()
+		o := checkCLI(c)
+		if o.discard != "" {
+			rec.Discard(o.discard)
+			return
+		}
+		rec.Class("cli-modules/" + o.stage)
+		rec.NT("cli-modules\x00" + fmt.Sprint(c.Modules) + q)
+		rec.Sample(c)
+		if o.msg != "" {
+			t.Fatalf("%s", rec.Fail("cli", c, "%s", o.msg))
+		}
+	})
+
 	// (iv) the command: random argv and stdin
 	rec.Rapid(t, "cli", rec.Scale(2500, 40000), func(t *rapid.T) {
 		n := rapid.IntRange(0, 6).Draw(t, "nargs")
